@@ -42,7 +42,11 @@ func c05(c *vc.Ctx) {
 	cfgs := reducedConfigs()
 	pairDepth := vc.Pick(c, 0, 1)
 	c.Rule = space.describe() + fmt.Sprintf("; plus every PAIR of comment deviations (trailing comment / comment line at two different gaps) of the depth<=%d templates (depth 1 limited to templates with <=8 gaps); %d printer configurations; oracle: with Minify off the sequence of comment texts (right-trimmed, in source order) of Parse(Print(src)) equals that of Parse(src); with Minify only a '#!' comment at 1:1 survives; distinct = distinct non-empty comment sequences", pairDepth, len(cfgs))
-	gen := func(emit func(synCase)) {
+	gen := func(emit0 func(synCase)) {
+		// the programs of the first generator; the second one skips them so
+		// that every (program, variant) is one case with one key
+		first := map[string]bool{}
+		emit := func(t synCase) { first[t.Src] = true; emit0(t) }
 		genSyn(c, space, emit)
 		// pairs of comments
 		seen := map[string]bool{}
@@ -74,12 +78,17 @@ func c05(c *vc.Ctx) {
 				emit(synCase{src, v.Name, 0})
 			}
 		}
+		// second generator: sets of comment insertions in composed programs
+		c05GenSets(c, first, emit0)
 	}
 	complete := vc.Run(c, gen, func(t synCase) *vc.Fail {
 		ws := synt.GetWorkspace()
 		defer synt.PutWorkspace(ws)
 		lang := synt.LangByName(t.Variant)
 		key := t.Variant + " " + fmt.Sprintf("%q", t.Src)
+		if t.Kind == 5 {
+			key = "w:" + key // cases of the second generator (c05_gen.go)
+		}
 		f, err := ws.Parse(t.Src, lang)
 		if err != nil {
 			c.Count("pairs_not_parsing", 1)
@@ -136,11 +145,8 @@ func c05(c *vc.Ctx) {
 				if cfg.Minify {
 					kind = "minify-comments"
 				}
-				class := ""
-				if cfg.Single && !cfg.Minify && len(got) < len(exp) {
-					// a comment cannot be kept inside a single line; the
-					// printer silently drops it
-					class = "singleline-drops-comments"
+				class := c05Class(f, cfg, got, exp)
+				if class == "singleline-drops-comments" {
 					kind = "singleline-comments"
 				}
 				fl := &vc.Fail{Class: class, Key: key + " " + kind, Msg: fmt.Sprintf("[%s] %s with %s gives %s: comments %q, want %q", t.Variant, shortSrc(t.Src), cfg, shortSrc(out), got, exp)}
